@@ -893,6 +893,56 @@ func callVerifAPI(fr *frame, name string, args []value) (res value, ok bool) {
 	case "verifFlushChecks":
 		p.flushChecks()
 		return nil, true
+	case "verifCount":
+		// number of true elements; symbolic part summed in 8 bits (at most 255 flags)
+		bs := args[0].([]value)
+		if len(bs) > 255 {
+			panic(pathEnd{"harness-error", "verifCount over more than 255 flags"})
+		}
+		conc := 0
+		var t *smt.Term
+		for _, b := range bs {
+			switch b := b.(type) {
+			case bool:
+				if b {
+					conc++
+				}
+			case sym:
+				one := p.ctx.Ite(b.t, p.ctx.BV(8, 1), p.ctx.BV(8, 0))
+				if t == nil {
+					t = one
+				} else {
+					t = p.ctx.Add(t, one)
+				}
+			}
+		}
+		if t == nil {
+			return conc, true
+		}
+		t = p.ctx.Add(t, p.ctx.BV(8, uint64(conc)))
+		return mkVal(types.Int, p.ctx.ZExt(t, 64)), true
+	case "verifB2I":
+		switch c := args[0].(type) {
+		case bool:
+			if c {
+				return 1, true
+			}
+			return 0, true
+		case sym:
+			return mkVal(types.Int, p.ctx.Ite(c.t, p.ctx.BV(64, 1), p.ctx.BV(64, 0))), true
+		}
+		return 0, true
+	case "verifSelI64":
+		switch c := args[0].(type) {
+		case bool:
+			if c {
+				return args[1], true
+			}
+			return args[2], true
+		case sym:
+			return mkVal(types.Int64, p.ctx.Ite(c.t, termOf(args[1]), termOf(args[2]))), true
+		}
+		return nil, true
 	case "verifSelU8":
 		// non-branching select: c ? a : b
 		switch c := args[0].(type) {
